@@ -355,15 +355,18 @@ def dump_sec(s, mode=0):
 # token level parser
 
 class Tok:
-    __slots__ = ('k', 't', 'line', 'eline')
-    # k: 'S' string  'C' comment  or one of { } ( ) = + ,
+    __slots__ = ('k', 't', 'line', 'eline', 'file', 'depth')
+    # k: 'S' string  'C' comment  one of { } ( ) = + ,   'X' lexical error  'U' lexically unspecified
     # line: line on which the token starts; eline: line on which it ends
+    # file: None = the top-level source, else the name of the included file; depth: include nesting
 
-    def __init__(self, k, t=b'', line=1, eline=None):
+    def __init__(self, k, t=b'', line=1, eline=None, file=None, depth=0):
         self.k = k
         self.t = t
         self.line = line
         self.eline = line if eline is None else eline
+        self.file = file
+        self.depth = depth
 
     def __repr__(self):
         return 'Tok(%s,%r)' % (self.k, self.t)
@@ -374,10 +377,11 @@ class _Stop(Exception):
         self.verdict = verdict
         self.at = at
         self.why = why
+        self.start = None   # index of the first token of the item in which the parse stopped
 
 
 class ParseResult:
-    __slots__ = ('verdict', 'at', 'why', 'events', 'deprecated', 'annotated', 'items', 'unknown_items')
+    __slots__ = ('verdict', 'at', 'why', 'events', 'deprecated', 'annotated', 'items', 'unknown_items', 'start')
 
 
 class RefParser:
@@ -406,13 +410,15 @@ class RefParser:
         self.items = []
         self.unknown_items = 0
         self.pending_comment = None
+        self.includes = 0
         r = ParseResult()
         r.why = ''
+        r.start = None
         try:
             self.body(store, 0)
             r.verdict, r.at = ACCEPT, self.n
         except _Stop as s:
-            r.verdict, r.at, r.why = s.verdict, s.at, s.why
+            r.verdict, r.at, r.why, r.start = s.verdict, s.at, s.why, s.start
         r.events = self.events
         r.deprecated = self.deprecated
         r.items = self.items
@@ -426,7 +432,12 @@ class RefParser:
             self.i += 1
         if self.i >= self.n:
             return None
-        return self.toks[self.i]
+        t = self.toks[self.i]
+        if t.k == 'X':
+            raise _Stop(REJECT, self.i, 'lexical error: ' + t.t.decode('latin-1'))
+        if t.k == 'U':
+            raise _Stop(UNSPEC, self.i, 'lexically unspecified: ' + t.t.decode('latin-1'))
+        return t
 
     def need(self, what=''):
         t = self.peek()
@@ -461,7 +472,13 @@ class RefParser:
                 return
             if t.k != 'S':
                 raise _Stop(REJECT, self.i, 'unexpected token')
-            self.item(sec, depth, comment, start)
+            name_i = self.i
+            try:
+                self.item(sec, depth, comment, start)
+            except _Stop as s:
+                if s.start is None:
+                    s.start = name_i
+                raise
 
     def item(self, sec, depth, comment, start):
         name_i = self.i
@@ -685,7 +702,14 @@ class RefParser:
         if 'i' in d.cbs:
             if self.include is None:
                 raise _Stop(UNSPEC, name_i, 'include without a file model')
-            self.include(self, sec, args, name_i)
+            # the file model answers with the tokens of the file (spliced in at this point:
+            # "include equals the text in place") or with a verdict
+            ans = self.include(args, self.toks[name_i])
+            if isinstance(ans, tuple):
+                raise _Stop(ans[0], self.i - 1, ans[1])
+            self.toks = self.toks[:self.i] + ans + self.toks[self.i:]
+            self.n = len(self.toks)
+            self.includes += 1
             return
         fail = self.tick()
         self.events.append(('f', d.name, list(args)))
